@@ -215,9 +215,10 @@ def r4(ctx, prog):
         if local:
             for dfn in rd.local_defs(f, o['d']):
                 if dfn['rhs'] is not None and any((f.field_of(x) or '').endswith('Timer::cb') for x in f.walk(dfn['rhs'])):
-                    mut_pts = [q.pt(f, st) for st in f.stmts if st and (heap_algo(f, st) or (st['k'] in q.CALL_KINDS and st.get('fn') == 'free' and st.get('cls', '').startswith(('tbox::ObjectPool<', 'tbox::cabinet::Cabinet<'))))]
+                    # only recycling the record invalidates it (heap algorithms move pointers, the cabinet free only retires the token)
+                    mut_pts = [q.pt(f, st) for st in f.stmts if st and st['k'] in q.CALL_KINDS and st.get('fn') == 'free' and st.get('cls', '').startswith('tbox::ObjectPool<')]
                     src_ok = all(f.cfg.dominates(dfn['point'], m) for m in mut_pts if m)
-        ctx.ob('C02.R4', '%s|copy-first' % f.name, local and src_ok, 'the callback object is copied to a local before pop_heap / pool free', where=f.loc(i['i']))
+        ctx.ob('C02.R4', '%s|copy-first' % f.name, local and src_ok, 'the callback object is copied to a local before the record can be recycled (pool free)', where=f.loc(i['i']))
         # uses of the timer record after the invoke
         tvars = set()
         for st in f.stmts:
